@@ -2,7 +2,7 @@
 import random
 import re
 
-from .. import casing, common as c, corpus, l2, ovbins, translate
+from .. import casing, common as c, corpus, l2, ovbins, translate, rs2lean
 
 THEOREMS = [("Sylvia.Thm.C12", "C12." + t) for t in
             ["lower_outcome", "step_equiv", "history_equiv", "failed_step_keeps_state", "handler_error_surfaces",
@@ -11,7 +11,8 @@ THEOREMS = [("Sylvia.Thm.C12", "C12." + t) for t in
            [("Sylvia.Thm.Obl.Multitest", "Obl." + t) for t in ["mt_no_unwrapping_downcast", "mt_proxy_ops", "mt_inst_defaults", "mt_inst_setters", "mt_forms", "mt_forms_all",
                                                                "mt_contract_bodies"]] + \
            [("Sylvia.Thm.Obl.Complete.C12", "Obl.extraction_complete_C12"), ("Sylvia.Thm.C02", "C02.dispatch_exact"), ("Sylvia.Thm.C02", "C02.dispatch_exact_struct"),
-            ("Sylvia.Thm.C05Gen", "C05.parts_faithful_closed")]
+            ("Sylvia.Thm.C05Gen", "C05.parts_faithful_closed")] + \
+           [("Sylvia.Thm.MtProxyFn", "MtProxyFn." + t) for t in ["downcast_error_eq", "exec_call_eq", "migrate_call_eq", "withAll_eq"]]
 
 ACCOUNTS = ["alice", "bob", "carol"]
 
@@ -204,6 +205,12 @@ def run(ctx):
                         "an error of a query handler reaches the caller as text through cosmwasm's querier on both paths; it is compared by the failing handler's id",
                         "overridden entry points are exercised through the chain's raw operations (stream L2-mt-overrides), reply through a self-addressed sub-message"]
     translate.regenerate()
+    # function translator: downcast_error, ExecProxy, MigrateProxy of sylvia/src/multitest.rs -> Extracted/MtProxyFns.lean; Thm/MtProxyFn.lean
+    # proves that a proxy call is the raw chain operation with the same values and the documented error conversion
+    mt_problems = rs2lean.regenerate("mtproxy")
+    ctx.cov["function_translator_mtproxy"] = {"source": "sylvia/src/multitest.rs (downcast_error, ExecProxy, MigrateProxy)", "problems": mt_problems}
+    if mt_problems:
+        ctx.obligation_failed("function-translator(mtproxy)", "; ".join(mt_problems)[:1500])
     c.prove(ctx, sorted({m for m, _ in THEOREMS}), THEOREMS)
     progs, exes = l2.get_corpus(ctx)
     rng = random.Random(ctx.seed * 59 + 12)
